@@ -495,6 +495,13 @@ func init() {
 				r.violation("repoManager.loadMetadata", "not found", "-")
 				return
 			}
+			// the corrections may sit in a helper of the loader (m.correctNewIDs())
+			for _, g := range withHelpers(lm) {
+				if len(fieldStores(g, "repoManager", "instanceID")) > 0 {
+					lm = g
+					break
+				}
+			}
 			checkCorrectionsOnlyRaise(r, lm, []string{"instanceID"}, 1)
 		}})
 	register(ruleDef{ID: "R6.9", Prop: "C06", Tier: "quick", Floor: 4,
